@@ -1,6 +1,6 @@
-"""Witnesses of the recorded C15 findings (findings_proposed/C15.txt): each returns a string while the
-defect is present on the real ttconv.model objects and None once it is repaired.  The same histories
-are the `refutes k ...` witnesses of coq/Findings/C15.v."""
+"""Witnesses of the former C15 findings (findings_proposed/C15.txt): each returns a string while the
+defect is present on the real ttconv.model objects and None once it is repaired (all are repaired: they
+must pass).  The same histories are replayed on the model in coq/Findings/C15.v."""
 from witnesses import witness
 
 
@@ -95,3 +95,21 @@ def _():
     ks = [type(x).__name__ for x in rtc]
     if ks == ["Rt", "Rp", "Rt", "Rp"]:
         return "Rtc has children " + str(ks)
+
+
+@witness("C15", "copy-to-self-never-returns")
+def _():
+    import signal
+    import ttconv.model as m, ttconv.style_properties as s
+    d = m.ContentDocument(); r = m.Region("r1", d)
+    r.add_animation_step(m.DiscreteAnimationStep(s.StyleProperties.Color, None, None, s.NamedColors.red.value))
+    def on_alarm(*_): raise TimeoutError()
+    old = signal.signal(signal.SIGALRM, on_alarm); signal.setitimer(signal.ITIMER_REAL, 0.3)
+    try:
+        r.copy_to(r)
+    except (TimeoutError, MemoryError):
+        return "Region.copy_to(self) does not return (the list of animation steps grows while it is iterated)"
+    finally:
+        signal.setitimer(signal.ITIMER_REAL, 0); signal.signal(signal.SIGALRM, old)
+    if len(list(r.iter_animation_steps())) != 1:
+        return "Region.copy_to(self) changed its own animation steps"
